@@ -505,3 +505,195 @@ void X__ZNSt6vectorIjSaIjEE17_M_realloc_insertIJRKjEEEvN9__gnu_cxx17__normal_ite
   if (v[0]) free(v[0]);
   v[0] = nb; v[1] = nb + n + 1; v[2] = nb + 16;
 }
+
+/* ---------------------------------------------------------------- POSIX regcomp/regexec (REG_EXTENDED), restricted model
+ * glibc's regex engine is outside the code under test.  dfs uses it with exactly three kinds of pattern:
+ *   (1) the two fixed canonicalisation patterns of dfs/afsp.cc (qualify / extend_wildcard), recognised literally;
+ *   (2) the ERE that convert_wildcard_into_extended_regex GENERATES: '^' elem* '$' with elem = literal, '\' literal,
+ *       bracket expression, each optionally followed by '*'.
+ * The model parses (2) by the POSIX rules for bracket expressions (leading '^' negates, a leading ']' is literal,
+ * '\' is an ordinary character inside brackets, 'a-b' is a range, an unterminated '[' is REG_EBRACK) and matches with a
+ * position-set automaton.  Any other construct makes regcomp ASSERT "unsupported", so nothing is silently mis-modelled. */
+#define VRX_MAXE 24
+#define VRX_MAXS 24
+struct vf_regex {
+  uint8_t kind;                         /* 1 = qualify pattern, 2 = extend_wildcard pattern, 3 = element list */
+  uint8_t n;                            /* elements */
+  uint8_t neg[VRX_MAXE], star[VRX_MAXE], any[VRX_MAXE], cnt[VRX_MAXE];
+  uint8_t lo[VRX_MAXE][3], hi[VRX_MAXE][3];   /* up to three members, each a range lo..hi */
+};
+static const char vrx_pat_qualify[] = "^(:[0-9]+[A-H]?[.])?([^.:#*][.])?([^.:#*]+)$";
+static const char vrx_pat_wild[]    = "^(:[0-9]+[A-H]?[.])?([^.][.])?([^.]+)$";
+static int vrx_streq(const uint8_t *a, const char *b)
+{
+  for (unsigned i = 0; i < 64; ++i) { if (a[i] != (uint8_t)b[i]) return 0; if (a[i] == 0) return 1; }
+  return 0;
+}
+uint32_t X_regcomp(void *preg, void *pattern, uint32_t cflags)
+{
+  const uint8_t *p = (const uint8_t *)pattern;
+  struct vf_regex *r = (struct vf_regex *)vf_alloc(sizeof(struct vf_regex));
+  (void)cflags;
+  *(struct vf_regex **)preg = r;
+  r->n = 0;
+  if (vrx_streq(p, vrx_pat_qualify)) { r->kind = 1; return 0; }
+  if (vrx_streq(p, vrx_pat_wild)) { r->kind = 2; return 0; }
+  r->kind = 3;
+  unsigned i = 0;
+  VF_ASSERT(p[0] == '^', "regex model: unsupported pattern (no leading ^)");
+  i = 1;
+  for (unsigned guard = 0; guard < VRX_MAXE + 1; ++guard)
+    {
+      uint8_t c = p[i];
+      if (c == 0) { VF_ASSERT(0, "regex model: unsupported pattern (no trailing $)"); return 0; }
+      if (c == '$' && p[i + 1] == 0) return 0;
+      VF_ASSERT(r->n < VRX_MAXE, "regex model: too many elements");
+      if (r->n >= VRX_MAXE) return 0;
+      unsigned e = r->n;
+      r->neg[e] = 0; r->star[e] = 0; r->any[e] = 0; r->cnt[e] = 0;
+      if (c == '[')
+        {
+          ++i;
+          if (p[i] == '^') { r->neg[e] = 1; ++i; }
+          unsigned first = 1;
+          for (unsigned g2 = 0; g2 < 5; ++g2)
+            {
+              uint8_t m = p[i];
+              if (m == 0) return 7;                                   /* REG_EBRACK: unterminated bracket expression */
+              if (m == ']' && !first) break;
+              VF_ASSERT(!(m == '[' && (p[i + 1] == '.' || p[i + 1] == ':' || p[i + 1] == '=')), "regex model: character classes are not modelled");
+              VF_ASSERT(r->cnt[e] < 3, "regex model: more than three members in a bracket expression");
+              if (r->cnt[e] >= 3) return 0;
+              uint8_t k = r->cnt[e];
+              r->lo[e][k] = m; r->hi[e][k] = m; ++i;
+              if (p[i] == '-' && p[i + 1] != ']' && p[i + 1] != 0) { r->hi[e][k] = p[i + 1]; i += 2; if (r->hi[e][k] < r->lo[e][k]) return 11; /* REG_ERANGE */ }
+              r->cnt[e] = (uint8_t)(k + 1);
+              first = 0;
+            }
+          if (p[i] != ']') { VF_ASSERT(0, "regex model: bracket expression too long"); return 0; }
+          ++i;
+        }
+      else if (c == '\\')
+        {
+          if (p[i + 1] == 0) return 5;                                /* REG_EESCAPE */
+          r->cnt[e] = 1; r->lo[e][0] = r->hi[e][0] = p[i + 1]; i += 2;
+        }
+      else if (c == '.') { r->any[e] = 1; ++i; }
+      else
+        {
+          VF_ASSERT(c != '*' && c != '+' && c != '?' && c != '(' && c != ')' && c != '|' && c != '{' && c != '^' && c != '$',
+                    "regex model: unsupported ERE operator outside a bracket expression");
+          r->cnt[e] = 1; r->lo[e][0] = r->hi[e][0] = c; ++i;
+        }
+      if (p[i] == '*') { r->star[e] = 1; ++i; }
+      r->n = (uint8_t)(e + 1);
+    }
+  VF_ASSERT(0, "regex model: pattern too long");
+  return 0;
+}
+static int vrx_elem(const struct vf_regex *r, unsigned e, uint8_t c)
+{
+  if (r->any[e]) return 1;
+  int in = 0;
+  for (unsigned k = 0; k < 3; ++k) if (k < r->cnt[e] && c >= r->lo[e][k] && c <= r->hi[e][k]) in = 1;
+  return r->neg[e] ? !in : in;
+}
+static uint32_t vrx_close(const struct vf_regex *r, uint32_t s)
+{
+  for (unsigned e = 0; e < VRX_MAXE; ++e) if (e < r->n && ((s >> e) & 1) && r->star[e]) s |= 1u << (e + 1);
+  return s;
+}
+/* the fixed patterns: ^(:[0-9]+[A-H]?[.])?(D[.])?(N+)$ with D, N character sets; POSIX leftmost-longest: the earlier group is preferred */
+static int vrx_fixed_try(const uint8_t *s, unsigned len, int strict, int with_drive, int with_dir, int32_t *m)
+{
+  unsigned i = 0;
+  m[2] = m[3] = m[4] = m[5] = -1;
+  if (with_drive)
+    {
+      if (s[i] != ':') return 0;
+      unsigned j = i + 1, digits = 0;
+      for (unsigned g = 0; g < VRX_MAXS; ++g) { if (j < len && s[j] >= '0' && s[j] <= '9') { ++j; ++digits; } else break; }
+      if (!digits) return 0;
+      if (j < len && s[j] >= 'A' && s[j] <= 'H' && j + 1 < len && s[j + 1] == '.') ++j;
+      if (!(j < len && s[j] == '.')) return 0;
+      m[2] = (int32_t)i; m[3] = (int32_t)(j + 1); i = j + 1;
+    }
+  if (with_dir)
+    {
+      if (!(i + 1 < len)) return 0;
+      uint8_t d = s[i];
+      if (d == '.' || (strict && (d == ':' || d == '#' || d == '*'))) return 0;
+      if (s[i + 1] != '.') return 0;
+      m[4] = (int32_t)i; m[5] = (int32_t)(i + 2); i += 2;
+    }
+  if (i >= len) return 0;
+  for (unsigned g = 0; g < VRX_MAXS; ++g)
+    if (i + g < len) { uint8_t c = s[i + g]; if (c == '.' || (strict && (c == ':' || c == '#' || c == '*'))) return 0; }
+  m[6] = (int32_t)i; m[7] = (int32_t)len;
+  m[0] = 0; m[1] = (int32_t)len;
+  return 1;
+}
+uint32_t X_regexec(void *preg, void *str, uint64_t nmatch, void *pmatch, uint32_t eflags)
+{
+  const struct vf_regex *r = *(struct vf_regex **)preg;
+  const uint8_t *s = (const uint8_t *)str;
+  int32_t *out = (int32_t *)pmatch;
+  (void)eflags;
+  unsigned len = 0;
+  for (unsigned g = 0; g < VRX_MAXS + 1; ++g) { if (s[g] == 0) break; ++len; }
+  VF_ASSERT(len <= VRX_MAXS, "regex model: subject string longer than VRX_MAXS");
+  if (r->kind == 1 || r->kind == 2)
+    {
+      int32_t m[8]; int ok = 0;
+      /* preference order: drive+dir, drive, dir, neither (a ':'-prefixed drive can never also parse as dir or name, see DESIGN) */
+      if (!ok) ok = vrx_fixed_try(s, len, r->kind == 1, 1, 1, m);
+      if (!ok) ok = vrx_fixed_try(s, len, r->kind == 1, 1, 0, m);
+      if (!ok) ok = vrx_fixed_try(s, len, r->kind == 1, 0, 1, m);
+      if (!ok) ok = vrx_fixed_try(s, len, r->kind == 1, 0, 0, m);
+      if (!ok) return 1;                                              /* REG_NOMATCH */
+      for (unsigned k = 0; k < 4; ++k) if (k < nmatch) { out[2 * k] = m[2 * k]; out[2 * k + 1] = m[2 * k + 1]; }
+      for (unsigned k = 4; k < 8; ++k) if (k < nmatch) { out[2 * k] = -1; out[2 * k + 1] = -1; }
+      return 0;
+    }
+  uint32_t set = vrx_close(r, 1u);
+  for (unsigned pos = 0; pos < VRX_MAXS; ++pos)
+    if (pos < len)
+      {
+        uint32_t next = 0; uint8_t c = s[pos];
+        for (unsigned e = 0; e < VRX_MAXE; ++e)
+          if (e < r->n && ((set >> e) & 1) && vrx_elem(r, e, c))
+            next |= r->star[e] ? (1u << e) : (1u << (e + 1));
+        set = vrx_close(r, next);
+      }
+  if (!((set >> r->n) & 1)) return 1;
+  if (nmatch > 0) { out[0] = 0; out[1] = (int32_t)len; }
+  for (unsigned k = 1; k < 8; ++k) if (k < nmatch) { out[2 * k] = -1; out[2 * k + 1] = -1; }
+  return 0;
+}
+void X_regfree(void *preg) { free(*(void **)preg); }
+uint64_t X_regerror(uint32_t code, void *preg, void *buf, uint64_t size)
+{
+  static const char msg[] = "regex error";
+  (void)code; (void)preg;
+  uint8_t *b = (uint8_t *)buf;
+  for (unsigned i = 0; i < sizeof msg; ++i) if (i < size) b[i] = (uint8_t)msg[i];
+  if (size && size < sizeof msg) b[size - 1] = 0;
+  return sizeof msg;
+}
+
+/* std::vector<char> built from an initializer list and then grown by push_back, used where a harness CUTS the real
+ * members: the initial storage already has a fixed capacity of 96 bytes (capacity is unobservable), so the vector never
+ * reallocates while its element count is symbolic; a 97th element is reported (assertion), never dropped. */
+void X__ZNSt6vectorIcSaIcEE19_M_range_initializeIPKcEEvT_S5_St20forward_iterator_tag(void *self, void *first, void *last)
+{
+  uint8_t **v = (uint8_t **)self;                   /* { begin, end, end_of_storage } */
+  uint64_t n = (uint64_t)((uint8_t *)last - (uint8_t *)first);
+  VF_ASSERT(n <= 96, "vector model: at most 96 elements");
+  uint8_t *nb = (uint8_t *)vf_alloc(96);
+  for (uint64_t i = 0; i < 96; ++i) { if (i >= n) break; nb[i] = ((uint8_t *)first)[i]; }
+  v[0] = nb; v[1] = nb + n; v[2] = nb + 96;
+}
+void X__ZNSt6vectorIcSaIcEE17_M_realloc_insertIJRKcEEEvN9__gnu_cxx17__normal_iteratorIPcS1_EEDpOT_(void *self, void *pos, void *val)
+{ (void)self; (void)pos; (void)val; VF_ASSERT(0, "vector model: more than 96 elements"); VF_STOP(); }
+void X__ZNSt6vectorIcSaIcEE17_M_realloc_insertIJcEEEvN9__gnu_cxx17__normal_iteratorIPcS1_EEDpOT_(void *self, void *pos, void *val)
+{ (void)self; (void)pos; (void)val; VF_ASSERT(0, "vector model: more than 96 elements"); VF_STOP(); }
